@@ -110,9 +110,10 @@ Fixpoint map_ents (rec : heap -> ref -> path -> option (heap * ref)) (fe : bool)
   end.
 
 (* a tree transformer that keeps the key structure and maps every leaf: new nodes at every level
-   (_fast_apply / _index_tensordict / _clone ...); lk = lock flag of the new nodes
-   (_fast_apply(propagate_lock=True): the result is locked iff the receiver is) *)
-Fixpoint map_tree (fuel : nat) (lk fe : bool) (leaff : path -> heap -> view -> heap * view) (h : heap) (r : ref) (pre : path)
+   (_fast_apply / _index_tensordict / _clone ...); propagate_lock comes in two forms: ln — every new node is
+   locked iff the node it comes from is (shape operations: the method is applied again on every nested tensordict); lk — every new
+   node is locked (arithmetic: result.lock_() when the receiver itself is locked) *)
+Fixpoint map_tree (fuel : nat) (lk ln fe : bool) (leaff : path -> heap -> view -> heap * view) (h : heap) (r : ref) (pre : path)
   : option (heap * ref) :=
   match fuel with
   | 0 => None
@@ -123,9 +124,9 @@ Fixpoint map_tree (fuel : nat) (lk fe : bool) (leaff : path -> heap -> view -> h
           match get_node h n with
           | None => None
           | Some nd =>
-              match map_ents (map_tree f lk fe leaff) fe pre h (nents nd) with
+              match map_ents (map_tree f lk ln fe leaff) fe pre h (nents nd) with
               | None => None
-              | Some (h1, es1) => let '(h2, m) := alloc_node h1 (mkNode es1 lk) in Some (h2, RNode m)
+              | Some (h1, es1) => let '(h2, m) := alloc_node h1 (mkNode es1 (lk || (ln && nlock nd))) in Some (h2, RNode m)
               end
           end
       end
@@ -140,7 +141,7 @@ Definition lf_un (f : pf) (_ : path) (h : heap) (v : view) : heap * view := fres
 Definition lf_contig (_ : path) (h : heap) (v : view) : heap * view :=
   if contiguousb v then (h, v) else fresh_leaf h (read h v).
 (* deep copy of a value: fresh storages for the leaves, fresh nodes (clone(True)) *)
-Definition deep_clone (fuel : nat) (h : heap) (r : ref) : option (heap * ref) := map_tree fuel false false lf_copy h r [].
+Definition deep_clone (fuel : nat) (h : heap) (r : ref) : option (heap * ref) := map_tree fuel false false false lf_copy h r [].
 
 (* the receiver's leaf combined with the operand's leaf OF THE SAME KEY (the operand list is aligned by sorting_keys) *)
 Definition lf_bin (f : bf) (lo : list (path * view)) (p : path) (h : heap) (v : view) : heap * view :=
@@ -470,37 +471,37 @@ Definition step (s : st) (i : instr) : st * outcome :=
       end
   | IViewB r nb bsel pl =>
       match reg s r with
-      | Some d => match map_tree (fuel_of h) (pl && root_locked h d) false (lf_sub nb bsel) h d [] with
+      | Some d => match map_tree (fuel_of h) false pl false (lf_sub nb bsel) h d [] with
                   | Some (h1, x) => (push s h1 x, Done) | None => fail EFuel end
       | None => fail EType
       end
   | IShallow r =>
       match reg s r with
-      | Some d => match map_tree (fuel_of h) false false lf_same h d [] with
+      | Some d => match map_tree (fuel_of h) false false false lf_same h d [] with
                   | Some (h1, x) => (push s h1 x, Done) | None => fail EFuel end
       | None => fail EType
       end
   | IClone r =>
       match reg s r with
-      | Some d => match map_tree (fuel_of h) false false lf_copy h d [] with
+      | Some d => match map_tree (fuel_of h) false false false lf_copy h d [] with
                   | Some (h1, x) => (push s h1 x, Done) | None => fail EFuel end
       | None => fail EType
       end
   | IGather r nb bsel =>
       match reg s r with
-      | Some d => match map_tree (fuel_of h) false false (lf_gather nb bsel) h d [] with
+      | Some d => match map_tree (fuel_of h) false false false (lf_gather nb bsel) h d [] with
                   | Some (h1, x) => (push s h1 x, Done) | None => fail EFuel end
       | None => fail EType
       end
   | IUnary r f pl fe =>
       match reg s r with
-      | Some d => match map_tree (fuel_of h) (pl && root_locked h d) fe (lf_un f) h d [] with
+      | Some d => match map_tree (fuel_of h) (pl && root_locked h d) false fe (lf_un f) h d [] with
                   | Some (h1, x) => (push s h1 x, Done) | None => fail EFuel end
       | None => fail EType
       end
   | IContig r =>
       match reg s r with
-      | Some d => match map_tree (fuel_of h) false false lf_contig h d [] with
+      | Some d => match map_tree (fuel_of h) false false false lf_contig h d [] with
                   | Some (h1, x) => (push s h1 x, Done) | None => fail EFuel end
       | None => fail EType
       end
@@ -513,7 +514,7 @@ Definition step (s : st) (i : instr) : st * outcome :=
               | None => fail EKey
               | Some _ =>
                   (* same structure as the receiver (empty nested nodes dropped); fresh leaves *)
-                  match map_tree (fuel_of h) (root_locked h d) true (lf_bin f lo) h d [] with
+                  match map_tree (fuel_of h) (root_locked h d) false true (lf_bin f lo) h d [] with
                   | Some (h1, x) => (push s h1 x, Done)
                   | None => fail EFuel
                   end
